@@ -31,7 +31,8 @@ def tree(c):
         for v in vals:
             params = getattr(v, "params", None)
             enc = v.to_ical() if hasattr(v, "to_ical") else v
-            props.append((k, type(v).__name__, sorted(params.items()) if params else [], enc))
+            # the decoded text too: two different texts can have the same encoded form (backslash-N and LF)
+            props.append((k, type(v).__name__, sorted(params.items()) if params else [], enc, v if isinstance(v, str) else None))
     return (c.name, props, [tree(s) for s in c.subcomponents])
 
 
@@ -67,7 +68,7 @@ TYPED = [
     "TZOFFSETFROM:-0500", "TZOFFSETTO:+013000", "TZOFFSETTO:+0000",
     "ATTACH;ENCODING=BASE64;VALUE=BINARY:TWFu", "ATTACH:http://example.com/a%2Cb;c",
     "ATTENDEE;CN=\"Doe, John\";ROLE=REQ-PARTICIPANT:mailto:john@example.com", "ORGANIZER;SENT-BY=\"mailto:a@b\":MAILTO:x@y",
-    "CATEGORIES:A,B\\,C,D\\;E", "CATEGORIES;LANGUAGE=en:", "RESOURCES:EASEL,PROJECTOR", "X-WR-CALNAME;VALUE=TEXT:a\\nb",
+    "CATEGORIES:A,B\\,C,D\\;E", "CATEGORIES;LANGUAGE=en:", "RESOURCES:EASEL,PROJECTOR", "X-WR-CALNAME;VALUE=TEXT:a\\nb", "DESCRIPTION:line1\\Nline2\\\\N", "SUMMARY:a\\;b\\,c\\\\d\\:e",
     "dtstart;value=date:20200101", "Summary;Language=en:x", "X-unknown;X-P=1,2,\"3;4\":v", "REQUEST-STATUS:2.0;Success",
     "RECURRENCE-ID;RANGE=THISANDFUTURE:19960120T120000Z", "COMPLETED:19960401T150000Z", "CLASS:", "DTSTAMP:20200101T000000",
 ]
